@@ -29,6 +29,7 @@ func C04(r *core.Run) {
 	rule047(r)
 	rule048(r)
 	rulePagingElements(r, "R04.9", "ListBucketResultBase", "ListBucketResult", "ListBucketResultV2")
+	rule035(r)
 }
 
 func rule041(r *core.Run) {
